@@ -134,13 +134,16 @@ SPECS = {
 }
 
 
-def closed_type(imports, lemma):
-    src = f"From V Require Import {imports}.\nSet Printing Width 100.\nSet Printing Depth 100000.\nCheck @{lemma}.\n"
+def closed_type(imports, lemma, prefix=""):
+    """The closed type of `lemma` as Coq prints it in the context `prefix` (the props file so far: open scopes depend on the import order) + imports."""
+    prefix = re.sub(r"^Print Assumptions .*$", "", prefix, flags=re.M)
+    src = prefix + f"\nFrom V Require Import {imports}.\nSet Printing Width 100.\nSet Printing Depth 100000.\nCheck @{lemma}.\n"
     work = os.path.join(os.path.dirname(COQ), ".work", "mkprops")
     os.makedirs(work, exist_ok=True)
     path = os.path.join(work, "mkprops_tmp.v")
     open(path, "w").write(src)
     out = subprocess.run(["coqc", "-Q", COQ, "V", path], capture_output=True, text=True, check=True, cwd=work).stdout
+    out = out[out.rindex("\n" + lemma.split(".")[-1]) + 1:] if ("\n" + lemma.split(".")[-1]) in out else out
     m = re.match(r"\s*\S+\s*\n?\s*:\s*(.*)", out, re.S)
     return m.group(1).strip()
 
